@@ -112,7 +112,7 @@ Qed.
 Lemma run_exits : forall f e st c len a,
   run_stmts e st (map (nf_exit f) (seq a len) ++ [SCall c])
   = match find (fun p => is_missing e (nf_pid f p)) (seq a len) with
-    | Some m => eval_call e st (mkCall (map (nf_kpos f) (seq 0 m)) (nf_selfa f ++ map (nf_apos f) (seq 0 m)))
+    | Some m => eval_call e st (nf_call f m)
     | None => eval_call e st c
     end.
 Proof.
@@ -142,26 +142,16 @@ Lemma eval_selfa_kw : forall f e (kwargs : list (nat * src)),
   flat_map (fun a => match a with APosI _ => [] | AKwI n x => [(n, env_get e x)] | AKwargs => kwargs end) (nf_selfa f) = [].
 Proof. intros f e kwargs. unfold nf_selfa. destruct (nf_self f); reflexivity. Qed.
 
-Lemma eval_exit_call : forall f k K st m,
-  eval_call (nf_env f k K) st (mkCall (map (nf_kpos f) (seq 0 m)) (nf_selfa f ++ map (nf_apos f) (seq 0 m)))
-  = OCall (map (fun p => mkKE None (nf_lf f (CPos p)) (env_get (nf_env f k K) (nf_pid f p))) (seq 0 m))
-          (selfs f ++ map (fun p => env_get (nf_env f k K) (nf_pid f p)) (seq 0 m)) [].
-Proof.
-  intros f k K st m. unfold eval_call. cbn [c_key c_args]. rewrite no_targs_kpos, no_kwargs_apos.
-  rewrite !flat_map_app, eval_selfa_pos, eval_selfa_kw, !flat_map_map. cbn [nf_kpos nf_apos].
-  rewrite !flat_map_single, flat_map_nil. reflexivity.
-Qed.
-
-Definition out_exit (f : nform) (k m : nat) : outcome :=
-  OCall (map (fun p => mkKE None (nf_lf f (CPos p)) (nf_psrc f k p)) (seq 0 m)) (selfs f ++ map (nf_psrc f k) (seq 0 m)) [].
-
 Definition kw_supplied (f : nform) (K : list nat) : list nat := nf_kr f ++ filter (fun m => memb Nat.eqb m K) (nf_ko f).
 
-Definition out_full (f : nform) (k : nat) (K : list nat) : outcome :=
-  OCall (map (fun p => mkKE None (nf_lf f (CPos p)) (nf_psrc f k p)) (seq 0 (nf_n f))
+(* the call on the first M positionals and every supplied keyword *)
+Definition out_M (f : nform) (k : nat) (K : list nat) (M : nat) : outcome :=
+  OCall (map (fun p => mkKE None (nf_lf f (CPos p)) (nf_psrc f k p)) (seq 0 M)
          ++ map (fun m => mkKE (Some m) (nf_lf f (CName m)) (SKw m)) (kw_supplied f K))
-        (selfs f ++ map (nf_psrc f k) (seq 0 (nf_n f)))
+        (selfs f ++ map (nf_psrc f k) (seq 0 M))
         (map (fun m => (m, SKw m)) (kw_supplied f K)).
+Definition out_exit (f : nform) (k : nat) (K : list nat) (m : nat) : outcome := out_M f k K m.
+Definition out_full (f : nform) (k : nat) (K : list nat) : outcome := out_M f k K (nf_n f).
 
 Lemma kwacc_nf : forall f k K l, nf_ok f -> incl l (nf_ko f) ->
   kwacc (nf_env f k K) l = map (fun m => (m, SKw m)) (filter (fun m => memb Nat.eqb m K) l).
@@ -197,17 +187,17 @@ Proof.
   - cbn [is_nil negb app run_stmts st_kwargs st_targs]. rewrite run_kwopts. reflexivity.
 Qed.
 
-Lemma eval_final : forall f k K, nf_ok f -> bound f k K ->
-  (forall p, p < nf_n f -> supplied f k K p = true) ->
-  eval_call (nf_env f k K) (st_after f k K) (nf_final f) = out_full f k K.
+Lemma eval_call_M : forall f k K M, nf_ok f -> bound f k K -> M <= nf_n f ->
+  (forall p, p < M -> supplied f k K p = true) ->
+  eval_call (nf_env f k K) (st_after f k K) (nf_call f M) = out_M f k K M.
 Proof.
-  intros f k K Hok Hb Hall. unfold eval_call, nf_final, out_full. cbn [c_key c_args].
+  intros f k K M Hok Hb HM Hall. unfold eval_call, nf_call, out_M. cbn [c_key c_args].
   assert (Ekr : forall m, In m (nf_kr f) -> env_get (nf_env f k K) (IUser m) = SKw m).
   { intros m Hm. rewrite env_kw_get by (auto; apply in_app_iff; auto).
     replace (memb Nat.eqb m K) with true; auto. symmetry. apply (memb_In Nat.eqb Nat.eqb_eq). apply (b_kr f k K Hb). exact Hm. }
-  assert (Epos : forall p, In p (seq 0 (nf_n f)) -> env_get (nf_env f k K) (nf_pid f p) = nf_psrc f k p).
+  assert (Epos : forall p, In p (seq 0 M) -> env_get (nf_env f k K) (nf_pid f p) = nf_psrc f k p).
   { intros p Hp. apply in_seq in Hp. apply env_pos_src; auto; try lia. apply Hall. lia. }
-  unfold nf_lookup, nf_posargs, st_after.
+  unfold nf_kwkeys, nf_kwitems, st_after.
   destruct (nf_hasko f) eqn:Eh; cbn [st_kwargs st_targs].
   - rewrite !existsb_app. cbn [existsb orb]. rewrite !orb_true_r.
     rewrite !flat_map_app, !flat_map_map. cbn [nf_kpos nf_knamed nf_apos flat_map app].
@@ -227,7 +217,7 @@ Proof.
       by (apply existsb_map_false; reflexivity).
     assert (N2 : existsb (fun a => match a with AKwargs => true | _ => false end) (map (fun n => AKwI n (IUser n)) (nf_kr f)) = false)
       by (apply existsb_map_false; reflexivity).
-    assert (N3 : existsb (fun a => match a with AKwargs => true | _ => false end) (map (nf_apos f) (seq 0 (nf_n f))) = false)
+    assert (N3 : existsb (fun a => match a with AKwargs => true | _ => false end) (map (nf_apos f) (seq 0 M)) = false)
       by (apply existsb_map_false; reflexivity).
     assert (N4 : existsb (fun a => match a with AKwargs => true | _ => false end) (nf_selfa f) = false)
       by (unfold nf_selfa; destruct (nf_self f); reflexivity).
@@ -269,7 +259,7 @@ Qed.
 
 Theorem run_nf : forall f k K, nf_ok f -> bound f k K ->
   run_stmts (nf_env f k K) (mkSt None None) (nf_body f)
-  = match first_missing f k K with Some m => out_exit f k m | None => out_full f k K end.
+  = match first_missing f k K with Some m => out_exit f k K m | None => out_full f k K end.
 Proof.
   intros f k K Hok Hb. unfold nf_body. rewrite run_prefix, run_exits.
   assert (Ef : find (fun p => is_missing (nf_env f k K) (nf_pid f p)) (seq (nf_r f) (nf_n f - nf_r f)) = first_missing f k K).
@@ -281,8 +271,6 @@ Proof.
     apply G. intros p Hp. apply in_seq in Hp. lia. }
   rewrite Ef. destruct (first_missing f k K) as [m|] eqn:E.
   - destruct (first_missing_some f k K m Hok Hb E) as [Hm [_ Hlt]].
-    rewrite eval_exit_call. unfold out_exit. f_equal.
-    + apply map_ext_in. intros p Hp. apply in_seq in Hp. rewrite env_pos_src; auto; try lia. apply Hlt. lia.
-    + f_equal. apply map_ext_in. intros p Hp. apply in_seq in Hp. apply env_pos_src; auto; try lia. apply Hlt. lia.
-  - apply eval_final; auto. apply (first_missing_none f k K Hok Hb E).
+    unfold out_exit. apply eval_call_M; auto. lia.
+  - unfold out_full, nf_final. apply eval_call_M; auto. apply (first_missing_none f k K Hok Hb E).
 Qed.
